@@ -142,6 +142,21 @@ def s6():
                     yield "fun-head", pre + "def f(%s)%s%s%s\n" % (params, ret, rs, body)
 
 
+def s7():
+    """definition x repeated uses: every definition value (also those the checker can give no type) followed by every
+    pair / triple of uses of the defined name - deferred constraints on the same unknown must not chase each other"""
+    pre = 'class K(def a: Int)\n    def m(self) -> Int => self.a\ndef f(x: Int) -> Int => x\n'
+    values = ["1", "-1", "+1", "_not_ 5", "not True", "\\x: Int => x + 1", "None ? 1", "None", "_", "[x | x in 0 .. 3]", "[]", "{}", "sqrt 4", "K(1)", "(1, 2)", "1 ..= 3", "if True then 1 else None", "undefined_name", "f", "K"]
+    uses = ["print(v)", "def u%d := v.a", "def u%d := v.m()", "def u%d := v.name", "def u%d := v + 1", "def u%d := 1 + v", "def u%d := -v", 'print("{v} and {v}")', "if v then print(1)",
+            "def u%d := f(v)", "def u%d := v(1)", "def u%d := v[0]", "for i%d in v do print(1)", "v := v", "def u%d := v ? 1", "def u%d := v = v"]
+    for val in values:
+        for a, ua in enumerate(uses):
+            for b, ub in enumerate(uses):
+                lines = ["def v := %s" % val, ua % 1 if "%d" in ua else ua, ub % 2 if "%d" in ub else ub]
+                yield "def-use-use", pre + "\n".join(lines) + "\n"
+            yield "def-use-x3", pre + "\n".join(["def v := %s" % val] + [(ua % k if "%d" in ua else ua) for k in (1, 2, 3)]) + "\n"
+
+
 def other_check_sources(tier):
     """the base programs of every other check's space: a crash anywhere is reported here"""
     from .. import gen_c02
@@ -218,6 +233,7 @@ def cases(tier, seed):
     yield from batch("c03.S3.pairs", pairs, 20)
     yield from batch("c03.S5.graphs", (src for _, src in s5()), 60)
     yield from batch("c03.S6.slots", (src for _, src in s6()), 150)
+    yield from batch("c03.S7.def-uses", (x for _, x in s7()), 120)
     yield from batch("c03.pool", (c["src"] for c in gen_prog.pool("quick")), 120)
     yield from batch("c03.pool.other-checks", other_check_sources(tier), 150)
 
